@@ -105,3 +105,42 @@ package sftp
 //@   property C20
 //@   requires len(data) >= 4
 //@   ensures result != nil
+
+// ---------------------------------------------------------------------------
+// mode conversions (stat.go, client.go)
+
+//@ func fromFileMode
+//@   property C17
+//@   ensures result & 0777 == uint32(mode) & 0777
+//@   ensures mode & os.ModeType == os.ModeDir ==> result & 0170000 == 0040000
+//@   ensures mode & os.ModeType == 0 ==> result & 0170000 == 0100000
+//@   ensures mode & os.ModeType == os.ModeSymlink ==> result & 0170000 == 0120000
+//@   ensures mode & os.ModeType == os.ModeNamedPipe ==> result & 0170000 == 0010000
+//@   ensures mode & os.ModeType == os.ModeSocket ==> result & 0170000 == 0140000
+//@   ensures mode & os.ModeType == os.ModeDevice ==> result & 0170000 == 0060000
+//@   ensures mode & os.ModeType == os.ModeDevice | os.ModeCharDevice ==> result & 0170000 == 0020000
+//@   ensures (result & 04000 != 0) <==> (mode & os.ModeSetuid != 0)
+//@   ensures (result & 02000 != 0) <==> (mode & os.ModeSetgid != 0)
+//@   ensures (result & 01000 != 0) <==> (mode & os.ModeSticky != 0)
+//@   ensures result & 0xFFFF0000 == 0
+
+//@ func toChmodPerm
+//@   property C17
+//@   ensures perm & 0777 == uint32(m) & 0777
+//@   ensures (perm & 04000 != 0) <==> (m & os.ModeSetuid != 0 || uint32(m) & 04000 != 0)
+//@   ensures (perm & 02000 != 0) <==> (m & os.ModeSetgid != 0 || uint32(m) & 02000 != 0)
+//@   ensures (perm & 01000 != 0) <==> (m & os.ModeSticky != 0 || uint32(m) & 01000 != 0)
+//@   ensures perm & ^uint32(07777) == 0
+
+//@ lemma wireModeRoundTrip
+//@   property C17
+//@   vars m uint32
+//@   requires m & 0170000 == 0040000 || m & 0170000 == 0100000 || m & 0170000 == 0120000 || m & 0170000 == 0010000 || m & 0170000 == 0140000 || m & 0170000 == 0060000 || m & 0170000 == 0020000
+//@   ensures fromFileMode(toFileMode(m)) == m & 0xFFFF
+
+//@ lemma osModeRoundTrip
+//@   property C17
+//@   vars fm os.FileMode
+//@   requires fm & ^(os.ModeType | os.ModePerm | os.ModeSetuid | os.ModeSetgid | os.ModeSticky) == 0
+//@   requires fm & os.ModeType == os.ModeDir || fm & os.ModeType == 0 || fm & os.ModeType == os.ModeSymlink || fm & os.ModeType == os.ModeNamedPipe || fm & os.ModeType == os.ModeSocket || fm & os.ModeType == os.ModeDevice || fm & os.ModeType == os.ModeDevice | os.ModeCharDevice
+//@   ensures toFileMode(fromFileMode(fm)) == fm
